@@ -1,7 +1,8 @@
 (* C18 — A successful run never yields the empty action, for any node kind.
    This file contains only the property theorems; each is closed by `exact` of a lemma from
    Proofs/ and followed by Print Assumptions. *)
-From Flyt Require Import Base Script FlowTable Engine EngineCorr EngineFacts SpecC18 C18Proofs.
+From Flyt Require Import Base Script FlowTable Engine EngineCorr EngineFacts SpecC18 C18Proofs
+     SpecRoute EngineSpecProofs.
 
 (* For every node kind (user node, function-style node, flow, batch node with any number of
    items including zero, sequential or with any concurrent executor), every oracle (= all
@@ -53,3 +54,10 @@ Theorem C18_spec_holds_of_model :
                      end) (model_obs sc).
 Proof. exact C18_spec_model_lemma. Qed.
 Print Assumptions C18_spec_holds_of_model.
+
+(* the predicate the case files apply (no empty action, and the step after an empty action is the
+   successor on the default action) holds of the model's observation of every scenario *)
+Theorem C18_specx_holds_of_model :
+  forall sc : escen, spec_C18x sc (eobs_of_model (model_obs sc)) = true.
+Proof. exact spec_C18x_model_lemma. Qed.
+Print Assumptions C18_specx_holds_of_model.
